@@ -12,8 +12,10 @@ Events (the transition labels of the explored graph):
                         of another slot).  An accepted continuation advances the stream's cursor.
   tick(d)               the clock advances by d in {ttl/2, ttl/2 + 1}  (so every age relation around the ttl —
                         entry expired / call token expired / cursor expired — is reachable in <= 3 ticks)
-Exploration: explicit-state BFS (``vf.core.bfs``) to depth 5 (quick) / 6 (thorough) per fleet configuration;
-every state is rebuilt by replaying its history through the real code on emptied caches.
+Exploration: explicit-state BFS to depth 5 (quick) / 4-6 (thorough, see ``configs``) per fleet configuration.  Successors are
+computed by restoring the fleet to the predecessor state (clock, client-held tokens, the cache entries the real
+code produced) and executing the event through the real code; every 4th newly found state is additionally rebuilt
+by replaying its whole history on emptied caches and must canonicalise identically (else harness error).
 
 Canonical state (deduplication key) = (ages of each stream's cursor and call token, each clamped at ttl+2; the
 stream position; per worker the *ordered* list of cache entries as (slot, identity, remaining life clamped at 0)).
@@ -35,12 +37,12 @@ Finding keys: ``hit-serves-request-without-call-token`` / ``hit-serves-tampered-
 from __future__ import annotations
 
 import base64
+import collections
 import itertools
 import json
 from typing import Any
 
-from vf.core import bfs as B
-from vf.core.runner import Ctx
+from vf.core.runner import Ctx, HarnessError, h
 from vf.kit import c12_tokens as T
 
 PROPERTY = "C14"
@@ -48,10 +50,11 @@ LEVEL = "model_checking"
 ENGINE = "E2-BFS"
 SHARDS = {"quick": 8, "thorough": 16}
 RULE = (
-    "BFS over all histories of init/cont(echo|omit|tamper|other[|xid])/tick events up to depth 5 (quick) / 6 (thorough) "
-    "for every fleet configuration (2 workers x capacities {0,1,2}^2 quick; {0,1,2,3}^2 plus 3-worker configurations "
-    "thorough; 2 / 3 stream slots); states deduplicated on (token ages, positions, ordered cache contents); one evaluation "
-    "per transition, non-trivial = distinct successor state"
+    "BFS over all histories of init/cont(echo|omit|tamper|other[|xid])/tick events for every fleet configuration: quick "
+    "2 workers x capacities {0,1,2}^2, 2 streams, depth 5; thorough 2 workers x {0..3}^2, 3 streams, 5 variants, depth 5 + "
+    "2 workers x {0,1,2}^2, 2 streams, depth 6 + three 3-worker fleets (2 streams depth 5, 3 streams depth 4); states "
+    "deduplicated on (token ages, positions, ordered cache contents); one evaluation per transition, non-trivial = "
+    "distinct successor state"
 )
 TECHNIQUE = "explicit-state BFS of the real worker fleet with a differential cold-worker oracle on every continuation"
 LEVEL_TEXT = (
@@ -77,6 +80,7 @@ Bq: T.Ident = ("corp", "bob")
 SLOT_IDENT = [A, Bq, A]
 SUBJECT = "prod_c"
 T0 = 1_000_000.0
+REPLAY_EVERY = 4  # every 4th newly found state is re-derived by full history replay
 
 
 def owner(ident: T.Ident) -> str:
@@ -287,24 +291,14 @@ def configs(ctx: Ctx) -> list[dict[str, Any]]:
         for caps in itertools.product((0, 1, 2), repeat=2):
             out.append({"caps": list(caps), "slots": 2, "depth": 5, "variants": base})
         return out
-    for caps in itertools.product((0, 1, 2, 3), repeat=2):
-        out.append({"caps": list(caps), "slots": 3, "depth": 6 if max(caps) <= 1 else 5, "variants": base + ["xid"]})
-    for caps in ((0, 1, 2), (1, 1, 1), (1, 2, 3), (2, 2, 2)):
-        out.append({"caps": list(caps), "slots": 3, "depth": 5, "variants": base})
+    for caps in itertools.product((0, 1, 2, 3), repeat=2):  # three streams (A, B, A), all five variants
+        out.append({"caps": list(caps), "slots": 3, "depth": 5, "variants": base + ["xid"]})
+    for caps in itertools.product((0, 1, 2), repeat=2):  # two streams, one level deeper
+        out.append({"caps": list(caps), "slots": 2, "depth": 6, "variants": base})
+    for caps in ((0, 1, 2), (1, 1, 1), (1, 2, 3)):  # three workers
+        out.append({"caps": list(caps), "slots": 2, "depth": 5, "variants": base})
+        out.append({"caps": list(caps), "slots": 3, "depth": 4, "variants": base + ["xid"]})
     return out
-
-
-class _Offset:
-    """ctx proxy: shifts the first-event shard index by the configuration index (better balance)."""
-
-    def __init__(self, ctx: Ctx, off: int) -> None:
-        self._ctx, self._off = ctx, off
-
-    def mine(self, index: int | None = None) -> bool:
-        return self._ctx.mine(None if index is None else index + self._off)
-
-    def __getattr__(self, name: str) -> Any:
-        return getattr(self._ctx, name)
 
 
 N_ORACLE = [0]
@@ -315,25 +309,93 @@ def setup() -> None:
     T.install_entropy()
 
 
+def snapshot(world: World) -> Any:
+    return (
+        CLOCK.now,
+        [None if sl is None else dict(sl) for sl in world.slots],
+        [list(w.cache._entries.items()) for w in world.workers],
+        world.error,
+    )
+
+
+def restore(world: World, snap: Any) -> None:
+    """Put the fleet back into a previously reached state (entries were produced by the real code)."""
+    CLOCK.now = snap[0]
+    world.slots = [None if sl is None else dict(sl) for sl in snap[1]]
+    for w, items in zip(world.workers, snap[2], strict=True):
+        ents = w.cache._entries
+        ents.clear()
+        for k, v in items:
+            ents[k] = v
+    world.error = snap[3]
+    world.last = None
+
+
+def explore(ctx: Ctx, ci: int, cfg: dict[str, Any]) -> dict[str, int]:
+    """BFS with state restore; every new state is re-derived by full replay on emptied caches and must agree."""
+    label = f"caps={cfg['caps']}/slots={cfg['slots']}/d={cfg['depth']}"
+    stats = {"states": 0, "transitions": 0, "max_depth": 0, "replay_validated": 0}
+    T.ENTROPY.reset("c14")
+    world = World(cfg)
+    k0 = h((label, canon(world)))
+    seen = {k0}
+    ctx.state(k0)
+    frontier: collections.deque[tuple[tuple[Any, ...], str, Any]] = collections.deque([((), k0, snapshot(world))])
+    first_idx = 0
+    while frontier:
+        hist, hk, snap = frontier.popleft()
+        if len(hist) >= cfg["depth"]:
+            continue
+        restore(world, snap)
+        for ev in enabled(world):
+            if not hist:
+                mine = ctx.mine(first_idx + ci)
+                first_idx += 1
+                if not mine:
+                    continue
+            restore(world, snap)
+            world.apply(ev)
+            nh = hist + (ev,)
+            bad = invariant(world, nh)
+            ck = h((label, canon(world)))
+            ctx.transition(hk, ev, ck)
+            ctx.trace()
+            stats["transitions"] += 1
+            ctx.case(
+                sample={"harness": label, "history": list(nh)} if stats["transitions"] in (5, 500, 5000) else None,
+                nontrivial=ck,
+                outcome=(ev[0], ev[3] if len(ev) > 3 else None, summary(world.last["resp"])[0] if world.last else None),
+            )
+            if bad:
+                ctx.fail(bad[0], bad[1], {"harness": label, "history": [list(e) for e in nh]})
+            if ck not in seen:
+                seen.add(ck)
+                ctx.state(ck)
+                stats["max_depth"] = max(stats["max_depth"], len(nh))
+                nsnap = snapshot(world)
+                if len(seen) % REPLAY_EVERY == 0:
+                    # the restored-state exploration and a from-scratch replay of the history must agree
+                    rw = build(cfg, nh)
+                    if h((label, canon(rw))) != ck:
+                        raise HarnessError(f"state restore and history replay disagree for {label} {nh}")
+                    stats["replay_validated"] += 1
+                    restore(world, nsnap)
+                frontier.append((nh, ck, nsnap))
+    stats["states"] = len(seen)
+    return stats
+
+
 def run(ctx: Ctx) -> None:
     setup()
-    ctx.extra.update({"configs": 0, "bfs_states": 0, "bfs_transitions": 0, "max_depth_reached": 0, "oracle_queries": 0})
+    ctx.extra.update({"configs": 0, "bfs_states": 0, "bfs_transitions": 0, "max_depth_reached": 0, "oracle_queries": 0,
+                      "states_revalidated_by_replay": 0})
     for ci, cfg in enumerate(configs(ctx)):
-        # shard on (configuration, first event): the initial state has 2-3 inits x workers + 2 ticks
-        label = f"caps={cfg['caps']}/slots={cfg['slots']}/d={cfg['depth']}"
-        st = B.bfs(
-            _Offset(ctx, ci),  # type: ignore[arg-type]
-            lambda hist, cfg=cfg: build(cfg, hist),
-            enabled,
-            canon,
-            invariant,
-            max_depth=cfg["depth"],
-            label=label,
-            shard_first_event=True,
-        )
+        # sharded on (configuration, first event)
+        st = explore(ctx, ci, cfg)
         ctx.extra["configs"] += 1
         ctx.extra["bfs_states"] += st["states"]
         ctx.extra["bfs_transitions"] += st["transitions"]
+        ctx.extra["states_revalidated_by_replay"] += st["replay_validated"]
         ctx.extra["max_depth_reached"] = max(ctx.extra["max_depth_reached"], st["max_depth"])
     ctx.extra["oracle_queries"] = N_ORACLE[0]
 
